@@ -815,9 +815,36 @@ static void build_expr(WorkList *list, ASTNode *expr, Environment *env) {
             }
             break;
             
-        case AST_STRING:
-            emit_formatted(list, "\"%s\"", expr->as.string_val);
+        case AST_STRING: {
+            /* The literal keeps its source escapes, which are C escapes as well.  A '?' is written
+             * as \? so that no trigraph (??/ ??= ??' ...) can form: the generated C is compiled
+             * with -std=c99. */
+            const char *s = expr->as.string_val ? expr->as.string_val : "";
+            size_t n = strlen(s);
+            char *buf = malloc(2 * n + 3);
+            if (!buf) {
+                fprintf(stderr, "Error: Out of memory emitting string literal\n");
+                exit(1);
+            }
+            size_t j = 0;
+            buf[j++] = '"';
+            for (size_t i = 0; i < n; i++) {
+                if (s[i] == '\\' && s[i + 1] != '\0') {
+                    buf[j++] = s[i++];
+                    buf[j++] = s[i];
+                } else if (s[i] == '?') {
+                    buf[j++] = '\\';
+                    buf[j++] = '?';
+                } else {
+                    buf[j++] = s[i];
+                }
+            }
+            buf[j++] = '"';
+            buf[j] = '\0';
+            emit_literal(list, buf);
+            free(buf);
             break;
+        }
             
         case AST_BOOL:
             emit_literal(list, expr->as.bool_val ? "true" : "false");
